@@ -313,10 +313,10 @@ SPEC = {
                  'qr.operands-bit-identical', 'split_matrix_svd.operands-bit-identical', 'retained_bond_indices.operands-bit-identical',
                  'graph-add.operands-bit-identical', 'tdvp1.only-target-modified', 'dmrg1.only-target-modified', 'from_opgraph.result-shares-no-state'],
     'workloads': [
-        Workload('arithmetic', arithmetic_case, quick=400, thorough=12000),
-        Workload('decomposition', decomposition_case, quick=300, thorough=8000),
-        Workload('symbolic', symbolic_case, quick=250, thorough=6000),
-        Workload('inplace', inplace_case, quick=160, thorough=5000),
+        Workload('arithmetic', arithmetic_case, quick=800, thorough=120000),
+        Workload('decomposition', decomposition_case, quick=600, thorough=80000),
+        Workload('symbolic', symbolic_case, quick=500, thorough=48000),
+        Workload('inplace', inplace_case, quick=320, thorough=40000),
         Workload('suite-soak', soak_case, quick=0, thorough=1, shardable=False),
     ],
     'shards': {'quick': 4, 'thorough': 16},
